@@ -42,6 +42,7 @@ Definition tr_set_events (t : track) (v : list event) : track :=
   mkTrack (tr_timepos t) (tr_channel t) (tr_length t) (tr_octave t) (tr_velocity t) (tr_qlen t) (tr_timing t) (tr_track_key t)
           (tr_tie_mode t) (tr_tie_value t) (tr_bend_range t) v (tr_tie_notes t).
 Definition tr_push_event (t : track) (e : event) : track := tr_set_events t (tr_events t ++ [e]).
+Definition tr_push_events (t : track) (evs : list event) : track := tr_set_events t (tr_events t ++ evs).
 
 (* variables_stack (global scope): name -> value; only what the fragment needs is distinguished *)
 Inductive vval := VStr (body : list ch) (line : Z) | VInt (v : Z) | VOther.
